@@ -129,6 +129,8 @@ class Monitor(object):
                         if v2 != vid and v2 in order and vid in order and \
                                 (order.index(v2) < order.index(vid)) != (p2 < pser):
                             return 'pool %d: poolserials of events %d and %d do not follow acceptance order' % (pi, v2, vid)
+        if op[0] == 'finish' and any(x.startswith('ERaise') for x in effs):
+            return 'an exception escaped from finish() of a listener'
         if self.w.discard_log_mismatch:
             return 'number of error-level log lines differs from the number of discarded events'
         # ---- FIFO: a dispatch pass sends a prefix of the queue, in queue order
@@ -322,7 +324,7 @@ def _run(chk, wd, proved):
             elif r < 0.90:
                 ops.append(['stop', pi, i])
             else:
-                ops.append(['finish', pi, i, rng.choice([b'', b'', b'RESULT 2\nOK', b'junk']), rng.choice([B, ['epipe']])])
+                ops.append(['finish', pi, i, rng.choice([b'', b'', b'RESULT 2\nOK', b'junk']), rng.choice([B, B, ['epipe'], ['err']])])
         return ops
     nrand = 700 if quick else 8000
     for _ in range(nrand):
